@@ -70,6 +70,15 @@ func (s Step) String() string {
 	return fmt.Sprintf("t%d.%d:%s(%s)%s", s.Tid, s.Op, s.Call, p, e)
 }
 
+// Contention is one probe of the real store lock: Waiter waited at Kind while Holders held the
+// modelled lock; Acquired = the real lock did not keep the waiter out.
+type Contention struct {
+	Waiter   int
+	Kind     string
+	Holders  []int
+	Acquired bool
+}
+
 // Decision is one scheduling point: which thread ran before, which were runnable, which was chosen.
 type Decision struct {
 	Cur      int
@@ -112,15 +121,26 @@ type thr struct {
 
 // Sched is the scheduler of one run.
 type Sched struct {
-	n        int
-	thr      []*thr
-	ev       chan evt
-	lockW    int   // thread holding the modelled exclusive lock, -1 = none
-	lockR    []int // modelled shared holds per thread
-	schedule []Seg
-	segIdx   int
-	segUsed  int
-	finished []bool
+	n     int
+	thr   []*thr
+	ev    chan evt
+	holdW []bool // threads holding the modelled exclusive lock (more than one only after a probe showed that the real lock does not exclude them)
+	lockR []int  // modelled shared holds per thread
+	// Real-lock probes (directory back end): when a thread waits at Lock/RLock because the modelled
+	// lock is held through other handles, probe asks the REAL lock of the waiter's handle whether it
+	// excludes the waiter as well. acquired = the real lock let the waiter in although the holders
+	// listed still hold it: a violation; the pairs become blind (the model stops excluding them, as
+	// the real lock does) so that the run shows what the missing exclusion leads to.
+	probe       func(tid int, kind string, holders []int) (acquired bool, detail string)
+	blind       map[[2]int]bool // (waiter, holder): the real lock of the waiter's handle does not see the holder's
+	parkSeq     []int           // number of calls each thread has parked with
+	epoch       int             // number of modelled lock acquisitions
+	probedAt    map[int][2]int  // thread -> (parkSeq, epoch) of its last probe
+	Contentions []Contention
+	schedule    []Seg
+	segIdx      int
+	segUsed     int
+	finished    []bool
 
 	Steps     []Step
 	Decisions []Decision
@@ -139,7 +159,8 @@ var errAbandoned = errors.New("c17: run abandoned by the scheduler")
 var errNotHeld = errors.New("c17: unlock of a store lock that is not held")
 
 func newSched(n int, schedule []Seg, watchdog time.Duration) *Sched {
-	s := &Sched{n: n, ev: make(chan evt, 4*n+4), lockW: -1, lockR: make([]int, n), schedule: schedule, watchdog: watchdog, finished: make([]bool, n)}
+	s := &Sched{n: n, ev: make(chan evt, 4*n+4), holdW: make([]bool, n), lockR: make([]int, n), schedule: schedule, watchdog: watchdog, finished: make([]bool, n),
+		blind: map[[2]int]bool{}, parkSeq: make([]int, n), probedAt: map[int][2]int{}}
 	for i := 0; i < n; i++ {
 		s.thr = append(s.thr, &thr{grant: make(chan bool, 1)})
 	}
@@ -153,26 +174,88 @@ func (s *Sched) park(tid int, c call) bool {
 	if t.abandoned.Load() {
 		return false
 	}
+	s.parkSeq[tid]++
 	s.ev <- evt{tid: tid, c: c}
 	return <-t.grant
 }
 
+// wHolder is a thread holding the modelled exclusive lock, -1 = none.
+func (s *Sched) wHolder() int {
+	for tid, h := range s.holdW {
+		if h {
+			return tid
+		}
+	}
+	return -1
+}
+
+// conflicts lists the threads whose modelled holds keep tid's parked Lock/RLock from proceeding
+// (tid itself included: a second acquisition through the same handle blocks for ever).
+func (s *Sched) conflicts(tid int, c call) []int {
+	var out []int
+	for o := 0; o < s.n; o++ {
+		if (c.kind == cLock && (s.holdW[o] || s.lockR[o] > 0)) || (c.kind == cRLock && s.holdW[o]) {
+			out = append(out, o)
+		}
+	}
+	return out
+}
+
 func (s *Sched) enabled(tid int, c call) bool {
-	switch c.kind {
-	case cLock:
-		if s.lockW != -1 {
+	if c.kind != cLock && c.kind != cRLock {
+		return true
+	}
+	for _, o := range s.conflicts(tid, c) {
+		if o == tid || !s.blind[[2]int{tid, o}] {
 			return false
 		}
-		for _, r := range s.lockR {
-			if r > 0 {
-				return false
-			}
-		}
-		return true
-	case cRLock:
-		return s.lockW == -1
 	}
 	return true
+}
+
+// probeWaiters asks the real lock about every thread that waits for the modelled lock, once per
+// parked call and state of the modelled lock.
+func (s *Sched) probeWaiters(pending map[int]call) {
+	if s.probe == nil {
+		return
+	}
+	for tid := 0; tid < s.n; tid++ {
+		c, ok := pending[tid]
+		if !ok || s.enabled(tid, c) {
+			continue
+		}
+		holders := s.conflicts(tid, c)
+		if containsInt(holders, tid) {
+			continue
+		}
+		at := [2]int{s.parkSeq[tid], s.epoch}
+		if last, ok := s.probedAt[tid]; ok && last == at {
+			continue
+		}
+		s.probedAt[tid] = at
+		acquired, detail := s.probe(tid, c.kind, holders)
+		s.Contentions = append(s.Contentions, Contention{Waiter: tid, Kind: c.kind, Holders: holders, Acquired: acquired})
+		if acquired {
+			for _, o := range holders {
+				s.blind[[2]int{tid, o}] = true
+			}
+			s.vs.Add("store-lock-not-exclusive:"+c.kind, "%s", detail)
+		}
+	}
+}
+
+// forget is called when a thread replaces its handle: what the probes learnt about the old handle's
+// lock is void, and a lock the old handle still held is gone with it.
+func (s *Sched) forget(tid int) {
+	for k := range s.blind {
+		if k[0] == tid || k[1] == tid {
+			delete(s.blind, k)
+		}
+	}
+	if s.holdW[tid] || s.lockR[tid] > 0 {
+		s.vs.Add("handle-closed-with-lock-held", "thread %d (operation %d) closed its key store handle while the modelled store lock was still held through it (exclusive %v, shared holds %d)", tid, s.thr[tid].op, s.holdW[tid], s.lockR[tid])
+		s.holdW[tid], s.lockR[tid] = false, 0
+	}
 }
 
 func (s *Sched) pick(runnable []int, cur int) int {
@@ -294,6 +377,7 @@ func (s *Sched) Run(views []*view, bodies []func(v *view)) {
 	}
 	cur := -1
 	for {
+		s.probeWaiters(pending)
 		var runnable []int
 		for tid := 0; tid < s.n; tid++ {
 			if c, ok := pending[tid]; ok && s.enabled(tid, c) {
@@ -311,7 +395,7 @@ func (s *Sched) Run(views []*view, bodies []func(v *view)) {
 				}
 			}
 			s.Outcome = "deadlock"
-			s.Detail = fmt.Sprintf("%s; modelled lock: exclusive holder t%d, shared holds %v", strings.Join(w, ", "), s.lockW, s.lockR)
+			s.Detail = fmt.Sprintf("%s; modelled lock: exclusive holder t%d, shared holds %v", strings.Join(w, ", "), s.wHolder(), s.lockR)
 			s.abort(pending, fin, timer)
 			return
 		}
@@ -321,9 +405,11 @@ func (s *Sched) Run(views []*view, bodies []func(v *view)) {
 		delete(pending, tid)
 		switch c.kind {
 		case cLock:
-			s.lockW = tid
+			s.holdW[tid] = true
+			s.epoch++
 		case cRLock:
 			s.lockR[tid]++
+			s.epoch++
 		}
 		s.thr[tid].grant <- true
 		e, ok := s.recv(timer)
@@ -359,7 +445,7 @@ func (s *Sched) Preemptions() int {
 
 // LocksFree tells whether the modelled lock is free.
 func (s *Sched) LocksFree() bool {
-	if s.lockW != -1 {
+	if s.wHolder() != -1 {
 		return false
 	}
 	for _, r := range s.lockR {
@@ -387,7 +473,7 @@ func (v *view) step(c call, err error) {
 	v.s.Steps = append(v.s.Steps, Step{Tid: v.tid, Op: v.s.thr[v.tid].op, Call: c.kind, Path: c.path, Path2: c.path2, Err: e, State: v.s.stateIdx()})
 }
 
-func (v *view) holdsW() bool { return v.s.lockW == v.tid }
+func (v *view) holdsW() bool { return v.s.holdW[v.tid] }
 func (v *view) holdsR() bool { return v.s.lockR[v.tid] > 0 }
 
 func (v *view) discipline(sig string, c call) {
@@ -396,7 +482,7 @@ func (v *view) discipline(sig string, c call) {
 		"runlock-without-lock": "without holding a shared store lock",
 		"write-without-lock":   "without holding the exclusive store lock",
 		"read-without-lock":    "without holding any store lock",
-	}[sig], v.s.lockW, v.s.lockR)
+	}[sig], v.s.wHolder(), v.s.lockR)
 }
 
 func (v *view) Lock() error {
@@ -406,7 +492,7 @@ func (v *view) Lock() error {
 	}
 	err := v.real.Lock()
 	if err != nil {
-		v.s.lockW = -1
+		v.s.holdW[v.tid] = false
 	}
 	v.step(c, err)
 	return err
@@ -437,7 +523,7 @@ func (v *view) Unlock() error {
 		return errNotHeld
 	}
 	err := v.real.Unlock()
-	v.s.lockW = -1
+	v.s.holdW[v.tid] = false
 	v.step(c, err)
 	return err
 }
